@@ -619,7 +619,12 @@ def veq(a, b):
 def order_limit(cols, rows, order_by, limit):
   rows = list(rows)
   if order_by:
-    for spec in reversed(order_by):
+    # `"col", "DESC"` (separate argument) is the same as `"col desc"`
+    merged = []
+    for spec in order_by:
+      if spec.strip().upper() == 'DESC' and merged: merged[-1] = merged[-1] + ' desc'
+      else: merged.append(spec)
+    for spec in reversed(merged):
       parts = spec.split()
       c = parts[0]; desc = len(parts) > 1 and parts[1].lower() == 'desc'
       i = cols.index(c)
